@@ -211,6 +211,9 @@ type Scenario struct {
 	// instrumenter); a change of their package-level state is not by itself
 	// a race and is not reported as I-GLOBAL (the worker still retires).
 	SyncPkgs []string `json:"sync_pkgs,omitempty"`
+	// RaceExemptPkgs: packages whose package-level variables the race detector
+	// does not judge (they use synchronisation the simulator does not model).
+	RaceExemptPkgs []string `json:"race_exempt_pkgs,omitempty"`
 }
 
 // OpResult is what one operation returned.
@@ -265,6 +268,7 @@ type Stats struct {
 	PoolGets           uint64   `json:"pool_gets,omitempty"`
 	PoolDrops          uint64   `json:"pool_drops,omitempty"`
 	SyncPoints         uint64   `json:"sync_points,omitempty"`
+	Touches            uint64   `json:"global_accesses,omitempty"` // accesses to package-level variables seen by the race detector
 	SyncedGlobalWrites int      `json:"synced_global_writes,omitempty"`
 	SwitchHash         string   `json:"switch_hash"` // hash of the (task,op,site) switch sequence
 	YieldCover         int      `json:"yield_cover,omitempty"`
